@@ -72,7 +72,7 @@ impl Prop for C19 {
         }
     }
     fn rule(&self) -> String {
-        "generated: 10 harness-defined blocks using #[derive(rustradio_macros::Block)] (sync 1->1, 1->2, 1->3, 2->1, 2->2, 2->3 with a distinct function per output; sync_tag 1->1 and 2->1; default+into fields; a non-sync block with generated new() over a copy and a non-copy output) under C08-style drip schedules with unequal input lengths and unequal free space per output. Oracle per work() call: steps = min(shortest input, smallest output space); every input loses exactly `steps`, every output gains exactly `steps`, the per-sample function runs exactly `steps` times, verdict Again; with steps = 0 nothing moves and the verdict names an empty input or a full output. Final outputs equal the per-port functions (so read ends come back in declaration order), tags follow the first input plus the block's own (the 2->1 sync_tag block also forwards the tags of its second input under its own key). eof() is enumerated over all input states. Non-trivial: some call saw unequal inputs or unequal output space; distinct = hash of the case.".into()
+        "generated: 10 harness-defined blocks using #[derive(rustradio_macros::Block)] (sync 1->1, 1->2, 1->3, 2->1, 2->2, 2->3 with a distinct function per output; sync_tag 1->1 and 2->1; default+into fields (an `into` field declared before a plain field of an interchangeable type, so the constructor's argument order shows in the output); a non-sync block with generated new() over a copy and a non-copy output) under C08-style drip schedules with unequal input lengths and unequal free space per output. Oracle per work() call: steps = min(shortest input, smallest output space); every input loses exactly `steps`, every output gains exactly `steps`, the per-sample function runs exactly `steps` times, verdict Again; with steps = 0 nothing moves and the verdict names an empty input or a full output. Final outputs equal the per-port functions (so read ends come back in declaration order), tags follow the first input plus the block's own (the 2->1 sync_tag block also forwards the tags of its second input under its own key). eof() is enumerated over all input states. Non-trivial: some call saw unequal inputs or unequal output space; distinct = hash of the case.".into()
     }
     fn assumptions(&self) -> Vec<String> {
         vec!["calls made after the harness dropped a stream end are not judged (buffered counts are unobservable then)".into()]
@@ -190,7 +190,7 @@ fn run_drip(case: &DripCase, ctx: &mut Ctx) {
     let fs: [fn(u32, u32, u32) -> u32; 3] = [f0, f1, f2];
     for j in 0..nsample_outs {
         let want: Vec<u64> = (0..n)
-            .map(|i| if kind == 8 { f0(a[i], (i as u32).wrapping_add(1), k) as u64 } else { fs[j](a[i], b[i], k) as u64 })
+            .map(|i| if kind == 8 { f0(a[i], (i as u32).wrapping_add(1), k).wrapping_add((k.wrapping_mul(3) ^ 0x55).wrapping_mul(5)) as u64 } else { fs[j](a[i], b[i], k) as u64 })
             .collect();
         if log.outs[j].data != PortData::Samples(want.clone()) {
             ctx.fail(
